@@ -108,6 +108,8 @@ func c10sBuild(root string) *c10sFamily {
 	m.AddLinkCollection(m.GetSymbol("xks"), s.GetSymbol("owners"))
 	// names that clash between the stores (a scalar here, a set / fk set / map there): c10_nest.go
 	c10nAddClashSymbols(f)
+	// a store that links to itself through a plain fk (the fk-set self link is xms): cycles of the link graph, c10_term.go
+	m.AddFkSymbol("xup", m)
 	return f
 }
 
@@ -166,6 +168,10 @@ func c10sSetList(b *boltz.TypedBucket, key string, entries []c10sEntry) {
 
 // c10sWriteMain writes one entity of the main store in the given presence profile
 func c10sWriteMain(store *boltz.TypedBucket, id string) {
+	if c10tyIsTyped(id) {
+		c10tyWrite(store, id) // every field / entry / map element of ONE storage type: c10_types.go
+		return
+	}
 	e := store.GetOrCreatePath(id)
 	scalarsA := func(withPrefix bool) {
 		e.SetString("s", "s", nil).SetInt64("i", 1, nil).SetFloat64("f", 1.5, nil).SetBool("b", true, nil)
@@ -271,7 +277,7 @@ func c10sWriteMain(store *boltz.TypedBucket, id string) {
 	}
 }
 
-var c10sMainIds = []string{"m1-full", "m2-full", "m3-absent", "m4-nil", "m5-scalars", "m6-sets", "m7-dangling", "m8-mistyped"}
+var c10sMainIds = append([]string{"m1-full", "m2-full", "m3-absent", "m4-nil", "m5-scalars", "m6-sets", "m7-dangling", "m8-mistyped"}, c10tyMainIds()...)
 
 func c10sWriteLinked(root *boltz.TypedBucket) {
 	subs := root.GetOrCreatePath("subs")
@@ -285,6 +291,7 @@ func c10sWriteLinked(root *boltz.TypedBucket) {
 	e.PutMap("tags", map[string]interface{}{"k": "s"}, nil, false)
 	c10nWriteClash(e, 1)
 	subs.GetOrCreatePath("s2-absent")
+	c10tyWriteSubs(root)
 	e = subs.GetOrCreatePath("s3-nil")
 	for _, k := range []string{"s", "i", "a", "name", "v", "x", "xk"} {
 		e.SetNil(k)
